@@ -127,6 +127,13 @@ var lineFaults = []faultKind{
 	{"undefined-identifier-in-parentheses", "{{ (\n nope\n) + 1 }}", true, 1},
 	{"undefined-identifier-in-each-source-index", "@each(q in [[1]][\n nope])x@end", true, 1},
 	{"division-by-zero-in-if-condition", "@if(1 ==\n 1 / 0)x@end", true, 1},
+	// a slot header, an insert header or a component header that is not closed, the next token standing on a later line
+	{"unclosed-slot-name-parenthesis", "@component(\"c\")@slot(\"s\"\n x@end@end", false, 1},
+	{"unclosed-slot-name-parenthesis-later", "@component(\"c\")\n@slot(\"a\")y@end\n@slot(\"s\"\n\n x@end@end", false, 4},
+	{"unclosed-insert-parenthesis", "@insert(\"i\"\n x@end", false, 1},
+	{"unclosed-component-parenthesis", "@component(\"c\"\n\n x", false, 2},
+	{"unclosed-reserve-parenthesis", "@reserve(\"r\"\n x", false, 1},
+	{"unclosed-use-parenthesis", "@use(\"l\"\n x", false, 1},
 	// faults in the clauses of a @for header that spans lines, and in the headers of other directives
 	{"undefined-identifier-in-for-post", "@for(i9 = 0;\n i9 < 2;\n i9 + nope)x@end", true, 2},
 	{"division-by-zero-in-for-post", "@for(j9 = 0; j9 < 2;\n j9 / 0)x@end", true, 1},
